@@ -41,6 +41,13 @@ class _SliceNormalizerMixIn:
 
     def _normalize_slice(self, key, clamp=False):
         """Return a slice equivalent to the input *key*, standardized."""
+        if key.step is None or key.step == 1:
+            # Resolve negative and out-of-range bounds the way list slicing does
+            start, stop, _step = slice(key.start, key.stop).indices(len(self))
+            stop = max(start, stop)
+            if not clamp and (key.stop is None or key.stop == maxsize):
+                stop = None
+            return slice(start, stop, 1)
         if key.start is None:
             start = 0
         else:
